@@ -1024,6 +1024,10 @@ def driver_appends_only(ctx, rid, crates):
                         b_ = H.path_local(x["recv"])
                         if b_:
                             buffers.add(b_)
+            if name.startswith("blots_core::"):
+                for x in H.walk(f["body"]):
+                    if H.kind(x) == "MethodCall" and x["name"] in ("push_str", "push") and is_string(x.get("recv_ty") or x["recv"].get("ty")) and H.path_local(x["recv"]):
+                        buffers.add(H.path_local(x["recv"]))
             bad = []
             for x in H.walk(f["body"]):
                 if H.kind(x) == "MethodCall" and x["name"] in BUFFER_EDITS and H.path_local(x["recv"]) in buffers and is_string(x.get("recv_ty") or x["recv"].get("ty")):
